@@ -103,20 +103,21 @@ def one_each(ctx, R):
     P = ctx.P
     for d in DIRECTIONS:
         ps, pt = emit.pipe(ctx, SVG, d, n=2), emit.pipe(ctx, TEX, d, n=2)
-        R.check(len(ps.nodes) == 2 and sorted(ps.item_index(n) for n in ps.nodes) == [0, 1], "C07.ONE-EACH", "%s|one node per datum" % d, where(P.func(TL + ".get_nodes")), "two data -> two nodes", "two data yield nodes %s" % [ps.item_index(n) for n in ps.nodes])
+        N = len(ps.items)
+        R.check(len(ps.nodes) == N and sorted(ps.item_index(n) for n in ps.nodes) == list(range(N)), "C07.ONE-EACH", "%s|one node per datum" % d, where(P.func(TL + ".get_nodes")), "%d data -> %d nodes, one each" % (N, N), "%d data yield nodes for the data %s" % (N, [ps.item_index(n) for n in ps.nodes]))
         for meth, tag, what in (("add_dots", "circle", "dot"), ("add_links", "path", "link"), ("add_labels", "rect", "label box")):
             f, out, r = ps.run_svg(meth)
             R.saw(f)
             n = len([e for e in out if e["tag"] == tag])
-            R.check(n == 2, "C07.ONE-EACH", "svg %s|%s" % (d, what), where(f), "one %s per datum" % what, "SVG %s emits %d %ss for 2 data" % (meth, n, what))
+            R.check(n == N, "C07.ONE-EACH", "svg %s|%s" % (d, what), where(f), "one %s per datum" % what, "SVG %s emits %d %ss for %d data" % (meth, n, what, N))
         for meth, pat, what in (("add_dots", r"\\draw node \[circle", "dot"), ("add_labels", r"rectangle \(", "label box")):
             g, doc, r = pt.run_tex(meth)
             R.saw(g)
             n = sum(len(re.findall(pat, flat(x)[0])) for x in doc)
-            R.check(n == 2, "C07.ONE-EACH", "tex %s|%s" % (d, what), where(g), "one %s per datum" % what, "TikZ %s emits %d %ss for 2 data" % (meth, n, what))
+            R.check(n == N, "C07.ONE-EACH", "tex %s|%s" % (d, what), where(g), "one %s per datum" % what, "TikZ %s emits %d %ss for %d data" % (meth, n, what, N))
         g, doc, r = pt.run_tex("add_links")
         n = len([x for x in doc if "\\draw" in flat(x)[0]])
-        R.check(n == 2, "C07.ONE-EACH", "tex %s|link" % d, where(g), "one link per datum", "TikZ add_links emits %d links for 2 data" % n)
+        R.check(n == N, "C07.ONE-EACH", "tex %s|link" % d, where(g), "one link per datum", "TikZ add_links emits %d links for %d data" % (n, N))
 
 
 @rule("C07.INIT-ORDER")
